@@ -133,6 +133,16 @@ def search(ctx):
                 if not (_rel(s1, s0) <= max(tol, 1e-10)):
                     ctx.violation("C04:scat-matrix-scaling:%s" % name, "scaling lengths by %g changed the scattering matrix (rel %.3g)" % (l, _rel(s1, s0)),
                                   dict(kind="smat", **info))
+            # ... and on the detector of the calculation itself (grid / Cartesian points at a finite distance), scaled with everything else
+            if name in ("Mie", "Mie(False,False)", "Tmatrix", "Multisphere") and not name.startswith("Lens"):
+                try:
+                    t0 = calc_scat_matrix(det, sc, medium_index=T.NMED, illum_wavelen=T.WL, theory=mk()).values
+                    t1 = calc_scat_matrix(dets, scs, medium_index=T.NMED, illum_wavelen=T.WL * l, theory=mk()).values
+                except Exception as ex:
+                    t0 = t1 = None       # calc_scat_matrix is not offered for every scatterer / theory combination
+                if t0 is not None and not (_rel(t1, t0) <= max(tol, 1e-10)):
+                    ctx.violation("C04:scat-matrix-scaling:finite-distance:%s" % name, "scaling lengths by %g changed the scattering matrix on a detector at a finite distance (rel %.3g)" % (l, _rel(t1, t0)),
+                                  dict(kind="smat-finite", **info))
             # cross sections: multiplied by l^2 (asymmetry parameter unchanged)
             if isinstance(sc, Sphere) and name in ("Mie", "Mie(False,False)", "Multisphere"):
                 c0 = calc_cross_sections(sc, medium_index=T.NMED, illum_wavelen=T.WL, illum_polarization=pol, theory=mk()).values
